@@ -73,6 +73,8 @@ func (c01) Gen(rng *rand.Rand, tier string, i int) *sim.Scenario {
 	if chance(rng, 0.3) {
 		sc.Noise = genNoise(rng, 4, int64(wr.call.TimeoutMs)*1000, false)
 	}
+	// the capture filter is an optimisation (C12): in a third of the runs every frame reaches the matcher
+	sc.Knobs.IgnoreFilters = chance(rng, 0.33)
 	return sc
 }
 
@@ -367,7 +369,7 @@ func (c03) Assumptions() []string {
 
 func (c03) Gen(rng *rand.Rand, tier string, i int) *sim.Scenario {
 	if i%2 == 0 {
-		return genEngineScenario("C03", rng, engineOpts{serial: chance(rng, 0.5), multiDest: true, late: true, bigTTL: 0.1})
+		return genEngineScenario("C03", rng, engineOpts{serial: chance(rng, 0.5), multiDest: true, late: true, bigTTL: 0.1, outOfRange: 0.1})
 	}
 	o := &wireOpts{variants: AllVariants, bigTTL: 0.15, silentProb: 0.4, dupProb: 0.2, lossProb: 0.05, lateProb: 0.15, overtake: true, noDest: 0.3, destForms: false}
 	wr := genWireRun(rng, o, 0, "c0")
@@ -432,6 +434,9 @@ func (c04) Gen(rng *rand.Rand, tier string, i int) *sim.Scenario {
 	wr := genWireRun(rng, o, 0, "c0")
 	sc := scenarioFor("C04", rng, []*wireRun{wr})
 	applyWrapBases(rng, sc)
+	// the capture filter is an optimisation (C12: enabling it never changes a result; on other
+	// platforms it does not exist): in a third of the runs every frame reaches the matcher
+	sc.Knobs.IgnoreFilters = chance(rng, 0.33)
 	return sc
 }
 
